@@ -430,11 +430,14 @@ impl World {
             let addr: SocketAddr = format!("10.2.0.{}:{}", i + 1, 9000 + i).parse().unwrap();
             let wrong: SocketAddr = format!("10.9.9.{}:{}", i + 1, 9100 + i).parse().unwrap();
             let e0 = mk_enr(&key, 1, Some(addr));
-            let enrs = match rng.below(4) {
+            let mut enrs = match rng.below(4) {
                 0 => vec![e0, mk_enr(&key, 2, None), mk_enr(&key, 5, Some(addr))],
                 1 => vec![e0, mk_enr(&key, 2, Some(wrong)), mk_enr(&key, 7, Some(addr))],
                 _ => vec![e0, mk_enr(&key, 2, Some(addr)), mk_enr(&key, 4, Some(addr))],
             };
+            // the newest record advertises another address: a correctly signed handshake with it
+            // is reported as unverifiable
+            enrs.push(mk_enr(&key, 9, Some(wrong)));
             peers.push(Peer { id: enrs[0].node_id(), key, addr, enrs, keys: vec![] });
         }
         World {
@@ -585,6 +588,8 @@ pub enum HsVariant {
     WrongStatic,
     NoRecord,
     OldRecord,
+    /// correctly signed, but the attached (newest) record advertises another address
+    Unverifiable,
 }
 
 #[derive(Clone, Debug)]
@@ -899,6 +904,23 @@ impl Runner {
                 self.w.failures.push(("C13".into(), format!("address holds {} filter exemptions but only {} exchanges are outstanding", c, outstanding)));
             }
         }
+        // ... and it is exempt while something is outstanding: every request of the application
+        // that is on the wire without an outcome holds one exemption
+        let mut need: BTreeMap<u64, u64> = BTreeMap::new();
+        for q in &self.w.reqs {
+            if q.external && q.first_tx > 0 && q.terminal == 0 {
+                let pa = self.w.peers[q.peer].addr;
+                *need.entry(self.w.it.addr(&pa)).or_insert(0) += 1;
+            }
+        }
+        // (challenges are not part of this lower bound: whether a handshake consumed one is not
+        // observable without re-implementing the handler's decision)
+        for (a, n) in need {
+            let have = s.exemptions.iter().find(|(x, _)| *x == a).map(|(_, c)| *c).unwrap_or(0);
+            if have < n {
+                self.w.failures.push(("C13".into(), format!("address holds {} filter exemptions although {} exchanges are outstanding", have, n)));
+            }
+        }
     }
 
     // ---- the moves ------------------------------------------------------------------------------
@@ -1108,6 +1130,7 @@ impl Runner {
         let (signer, attach): (usize, Option<Enr>) = match &variant {
             HsVariant::Honest => (pi, Some(self.w.peers[pi].enrs[2].clone())),
             HsVariant::OldRecord => (pi, Some(self.w.peers[pi].enrs[0].clone())),
+            HsVariant::Unverifiable => (pi, Some(self.w.peers[pi].enrs[3].clone())),
             HsVariant::NoRecord => (pi, None),
             HsVariant::ForgedWithOwnRecord(a) => (*a, Some(self.w.peers[*a].enrs[2].clone())),
             HsVariant::ForgedNoRecord(a) => (*a, None),
@@ -1171,6 +1194,15 @@ impl Runner {
             self.w.peers[pi].keys.push((ik, rk));
         }
         let consumed = !matches!(variant, HsVariant::BadSignature);
+        if !consumed {
+            // an invalid signature leaves the challenge outstanding and restarts its timer
+            let now = self.w.now + GRID_MS;
+            for c in self.w.out_challenges.iter_mut() {
+                if c.1 == cd {
+                    c.3 = now;
+                }
+            }
+        }
         let forged = if honest_signer { None } else { Some(pi) };
         self.inject(src, bytes, "handshake", signer, false, forged).await;
         if consumed {
@@ -1377,6 +1409,7 @@ fn gen_move(rng: &mut Rng, npeers: usize, focus: &str) -> Move {
                 5 => HsVariant::WrongStatic,
                 6 => HsVariant::NoRecord,
                 7 => HsVariant::OldRecord,
+                8 | 9 => HsVariant::Unverifiable,
                 _ => HsVariant::Honest,
             };
             Move::NetHandshake { ch: rng.below(8) as usize, variant }
